@@ -10,6 +10,7 @@ import scipy.linalg
 from .. import install, refs, gen, reach
 from ..install import ctx as _ctx
 
+REPO_TESTS_UNDER_CONTRACTS = True
 RULE = ('cases = (solver, order p, real/complex, how the autocorrelation was generated '
         '(sample autocorrelation | step-up from reflection coefficients with a |k| profile | '
         'indefinite perturbation), container type); non-trivial when p >= 2; distinct = distinct '
